@@ -14,8 +14,11 @@ import (
 )
 
 func (g *Gen) declIs() {
-	g.vc.decl("p$Is", "(declare-fun p$Is (Int Int) Bool)")
-	g.vc.declSet["p$Is"] = true
+	if !g.vc.declSet["p$Is"] {
+		g.vc.decl("p$Is", "(declare-fun p$Is (Int Int) Bool)")
+		// errors.Is(e, e) holds for comparable error values (all sentinels and pointer errors)
+		g.vc.decls = append(g.vc.decls, "(assert (forall ((e Int)) (! (p$Is e e) :pattern ((p$Is e e)))))")
+	}
 }
 
 // wVerbArgs returns the indexes of the arguments consumed by %w verbs in a format string.
@@ -60,8 +63,22 @@ func (g *Gen) specialCall(fr *Frame, st *State, site ssa.Instruction, c *ssa.Cal
 		res := g.freshVal(fr.id+"err", resTy())
 		g.vc.assume("", fmt.Sprintf("(not (= %s 0))", res.T))
 		var wrapped []string
-		if k, ok := c.Args[0].(*ssa.Const); ok && k.Value != nil && k.Value.Kind() == constant.String && len(args) >= 2 {
-			ws, _ := wVerbArgs(constant.StringVal(k.Value))
+		format, haveFormat := "", false
+		if k, ok := c.Args[0].(*ssa.Const); ok && k.Value != nil && k.Value.Kind() == constant.String {
+			format, haveFormat = constant.StringVal(k.Value), true
+		} else {
+			// the format may be a parameter of an inlined helper bound to a literal
+			for lit, name := range g.strLits {
+				if name == args[0].T {
+					format, haveFormat = lit, true
+				}
+			}
+			if args[0].T == "empty$" {
+				format, haveFormat = "", true
+			}
+		}
+		if haveFormat && len(args) >= 2 {
+			ws, _ := wVerbArgs(format)
 			el := args[1].Elems
 			known := true
 			for _, w := range ws {
@@ -80,6 +97,17 @@ func (g *Gen) specialCall(fr *Frame, st *State, site ssa.Instruction, c *ssa.Cal
 				g.vc.assume("", fmt.Sprintf("(forall ((t Int)) (! (= (p$Is %s t) %s) :pattern ((p$Is %s t))))", res.T, sOr(alts...), res.T))
 			}
 		}
+		return res, true
+	case "fmt.Sprintf":
+		res := g.freshVal(fr.id+"sprintf", resTy())
+		if k, ok := c.Args[0].(*ssa.Const); ok && k.Value != nil && k.Value.Kind() == constant.String {
+			f := constant.StringVal(k.Value)
+			if i := strings.Index(f, "%"); i > 0 {
+				g.vc.decl("p$hasPrefix", "(declare-fun p$hasPrefix (Str Str) Bool)")
+				g.vc.assume("", fmt.Sprintf("(p$hasPrefix %s %s)", res.T, g.strLit(f[:i])))
+			}
+		}
+		g.escapeArgs(fr, st, c)
 		return res, true
 	case "errors.New":
 		g.declIs()
